@@ -106,8 +106,12 @@ Section P.
     cbn [for_steps]. rewrite H. destruct (g s st); try reflexivity. apply IH.
   Qed.
 
+  (* an exception the `except` clause of check_conf does not name, raised by the check callback of a step of P *)
+  Definition uncaught (P : list step) (x : exn) : Prop :=
+    catches handled x = false /\ exists s a b, In s P /\ cb s a b = Some x.
+
   (* the loop over the steps of check_conf IS check_steps *)
-  Lemma check_loop cnd (p : list step) : forall m sw sc tr,
+  Lemma check_loop cnd P (p : list step) : forall m sw sc tr, incl p P ->
     (forall s k c, fire (m_regs m) s PCheck k c = fire (m_regs m) s PCheck k true) ->
     match check_steps step_ok_of m sw p with
     | (m', true) =>
@@ -117,10 +121,10 @@ Section P.
         exists x,
         for_steps (check_iter cnd) p (mkF m (sd sw) (sd (negb sw)) sc tr)
         = ORaise x (mkF m' (sd sw) (sd (negb sw)) sc tr)
-        /\ (x = EMachineError \/ catches handled x = false)
+        /\ (x = EMachineError \/ uncaught P x)
     end.
   Proof.
-    induction p as [|s r IH]; intros m sw sc tr Hfire.
+    induction p as [|s r IH]; intros m sw sc tr Hin Hfire.
     - reflexivity.
     - cbn [check_steps for_steps]. unfold check_iter at 1 3. unfold with_m. cbn [f_m f_left f_right f_scales f_trace].
       destruct (s_kind s) as [k|].
@@ -128,10 +132,12 @@ Section P.
       generalize (cnd (mkF m (sd sw) (sd (negb sw)) sc tr)); intros c. rewrite (Hfire (m_st m) k c).
       destruct (fire (m_regs m) (m_st m) PCheck k true) as [d| | |].
       + unfold step_ok_of at 1.
-        destruct (cb s (sd sw) (sd (negb sw))) as [x|].
-        * eexists. split; [reflexivity|]. destruct (catches handled x) eqn:E; [left; reflexivity | right; exact E].
-        * destruct (kind_eqb k Val); apply IH; exact Hfire.
-      + apply IH; exact Hfire.
+        assert (Hr : incl r P) by (intros y Hy; apply Hin; right; exact Hy).
+        destruct (cb s (sd sw) (sd (negb sw))) as [x|] eqn:Ecb.
+        * eexists. split; [reflexivity|]. destruct (catches handled x) eqn:E; [left; reflexivity | right].
+          split; [exact E|]. exists s, (sd sw), (sd (negb sw)). split; [apply Hin; left; reflexivity | exact Ecb].
+        * destruct (kind_eqb k Val); apply IH; assumption.
+      + apply IH; [intros y Hy; apply Hin; right; exact Hy | exact Hfire].
       + exists EMachineError. split; [reflexivity | left; reflexivity].
       + exists EMachineError. split; [reflexivity | left; reflexivity].
   Qed.
@@ -153,7 +159,7 @@ Section P.
     | (m1, false) =>
         exists x, block (exec cnd calls) can_check_conf e (mkF m l r sc tr)
                   = ORaise x (mkF m1 (sd sw) (sd (negb sw)) sc tr)
-                  /\ (x = EMachineError \/ catches handled x = false)
+                  /\ (x = EMachineError \/ uncaught p x)
     end.
   Proof.
     intros [Hst Hregs] e m_in. unfold check_round.
@@ -162,7 +168,7 @@ Section P.
     { unfold m0, m_in. destruct second; cbn [set_regs set_rdm m_regs]; rewrite Hregs; reflexivity. }
     assert (Hfire : forall s k c, fire (m_regs m0) s PCheck k c = fire (m_regs m0) s PCheck k true).
     { intros s k c. rewrite Hregs0, !(check_wf_fire _ Hc). reflexivity. }
-    pose proof (check_loop cnd p m0 sw sc tr Hfire) as HL.
+    pose proof (check_loop cnd p p m0 sw sc tr (incl_refl p) Hfire) as HL.
     assert (Hpre : block (exec cnd calls) can_check_conf e (mkF m l r sc tr)
                    = match for_steps (check_iter cnd) p (mkF m0 (sd sw) (sd (negb sw)) sc tr) with
                      | ONormal st' =>
@@ -225,7 +231,7 @@ Section P.
     match check_conf check_tbl step_ok_of (f_m st) p with
     | Accepted m' => semc fl fuel st p = ONormal (mkF m' SL SR (f_scales st) (f_trace st))
     | Rejected m' => exists x st', semc fl fuel st p = ORaise x st' /\ f_m st' = m'
-                                   /\ (x = EMachineError \/ catches handled x = false)
+                                   /\ (x = EMachineError \/ uncaught p x)
     end.
   Proof.
     intros Hwf fuel st p Hfuel Hm. apply check_flow_wf_norm in Hwf.
@@ -441,6 +447,74 @@ Section P.
       rewrite block_cons. cbn [exec_stmt]. unfold with_m.
       cbn [f_m f_left f_right f_scales f_trace table]. reflexivity.
     - destruct HS as (x & ->). exists x. reflexivity.
+  Qed.
+
+  (* ---------------------------------------------------------------- the C01 theorems, on the flows *)
+
+  Hypothesis Hr : run_tbl_wf run_tbl = true.
+
+  (* accepted iff documented path and valid steps *)
+  Theorem gen_check_accepts_iff fl : check_flow_wf fl = true ->
+    forall st p, clean (f_m st) ->
+    (exists st', semc fl 2 st p = ONormal st') <->
+    (spells_documented_path p
+     /\ forallb (fun s => step_ok_of s false) p = true
+     /\ (has_kind Val p = true -> forallb (fun s => step_ok_of s true) p = true)).
+  Proof.
+    intros Hwf st p Hm. rewrite <- (check_accepts_iff check_tbl step_ok_of Hc (f_m st) p Hm).
+    pose proof (sem_check_model fl Hwf 2 st p (le_n 2) Hm) as H.
+    destruct (check_conf check_tbl step_ok_of (f_m st) p) as [m'|m'].
+    - rewrite H. split; eauto.
+    - destruct H as (x & st' & -> & _). split; intros [y Hy]; discriminate.
+  Qed.
+
+  (* after an accepted check: state begin, no transition left, right_disp_map = this pipeline has a validation
+     step, left_img / right_img hold the caller's left / right image, nothing else changed; a refused check
+     raises, and what it raises is MachineError unless a check callback raised a class outside the except clause *)
+  Theorem gen_check_restores fl : check_flow_wf fl = true ->
+    forall st p, clean (f_m st) ->
+    if accept_b step_ok_of p
+    then semc fl 2 st p
+         = ONormal (mkF (mkM Begin [] (has_kind Val p) (m_scale (f_m st))) SL SR (f_scales st) (f_trace st))
+    else exists x st', semc fl 2 st p = ORaise x st' /\ (x = EMachineError \/ uncaught p x).
+  Proof.
+    intros Hwf st p Hm.
+    pose proof (sem_check_model fl Hwf 2 st p (le_n 2) Hm) as H.
+    pose proof (check_conf_spec check_tbl step_ok_of Hc (f_m st) p Hm) as H0.
+    destruct (accept_b step_ok_of p).
+    - rewrite H0 in H. exact H.
+    - destruct H0 as [m' H0]. rewrite H0 in H. destruct H as (x & st' & E & _ & Hx). eauto.
+  Qed.
+
+  (* "rejected with a sequencing error": when the check callbacks raise nothing but the classes the except
+     clause names (MachineError, KeyError, AttributeError), whatever leaves check_conf is MachineError *)
+  Theorem gen_reject_is_machine_error fl : check_flow_wf fl = true ->
+    (forall s a b x, cb s a b = Some x -> catches handled x = true) ->
+    forall st p x st', clean (f_m st) -> semc fl 2 st p = ORaise x st' -> x = EMachineError.
+  Proof.
+    intros Hwf Hcb st p x st' Hm E.
+    pose proof (sem_check_model fl Hwf 2 st p (le_n 2) Hm) as H.
+    destruct (check_conf check_tbl step_ok_of (f_m st) p) as [m'|m'].
+    - rewrite H in E. discriminate.
+    - destruct H as (y & st'' & E' & _ & [Hy | (Hy & s & a & b & _ & Hs)]).
+      + rewrite E' in E. injection E as <- _. exact Hy.
+      + apply Hcb in Hs. rewrite Hs in Hy. discriminate.
+  Qed.
+
+  (* every documented path runs without sequencing error, each step once per processed scale, in order, left
+     then (iff this pipeline has a validation step) right; the pair returned is (left, right) *)
+  Theorem gen_run_trace_exact fl : run_flow_wf fl = true ->
+    forall st p n d, clean (f_m st) -> f_trace st = [] ->
+    path_ok Begin p = Some d ->
+    (n >= 1)%nat -> ((n > 1)%nat -> has_kind Msc p = true) ->
+    semr fl st p (Z.of_nat n)
+    = OReturn (RProducts SL SR)
+        (mkF (mkM Begin [] (has_kind Val p) 0) (f_left st) (f_right st) (Z.of_nat n)
+             (expected_trace p n (has_kind Val p))).
+  Proof.
+    intros Hwf st p n d Hm Htr Hp Hn Hmsc.
+    pose proof (sem_run_model fl Hwf st p n Hn Htr) as H.
+    rewrite (run_spec run_tbl Hr (f_m st) p n d Hm Hp Hn Hmsc) in H. exact H.
   Qed.
 
 End P.
